@@ -1,6 +1,7 @@
 """Lead tool for seeded breaking changes.
 
-  seeded_tool.py confirm <ID> [name]   take /tmp/mut/<ID>/{patch.diff,demo.py|test_demo.py,NOTES.md}, confirm in a scratch worktree of /repo HEAD:
+  seeded_tool.py confirm <ID> [name]   take $SEED_SRC/<ID>/{patch.diff,demo.py|test_demo.py,NOTES.md} (SEED_SRC defaults to /tmp/mut; round 2 used
+                                 /tmp/mut2 and names <ID>b), confirm in a scratch worktree of /repo HEAD:
                                  patch applies, demo fails with it / passes without, full test suite keeps every BASELINE stable_pass
                                  test passing; then store it as /verif/seeded/<name or ID>/ (patch.diff, demo, NOTES.md, meta.json)
   seeded_tool.py eval <name> [tier]    run ./check <property> against a scratch worktree with the patch applied; update meta.json
@@ -72,9 +73,27 @@ def suite(wt, junit):
     return still
 
 
+def needs_from_notes(path):
+    """the 'what it needs to manifest' section of the author's NOTES.md"""
+    try:
+        lines = open(path).read().splitlines()
+    except OSError:
+        return ""
+    out, on = [], False
+    for l in lines:
+        if l.startswith("#") or (l.startswith("**") and l.rstrip().endswith("**")):
+            if on:
+                break
+            on = "need" in l.lower() or "manifest" in l.lower()
+            continue
+        if on:
+            out.append(l.strip())
+    return " ".join(x for x in out if x)[:900]
+
+
 def confirm(pid, name=None):
     name = name or pid
-    src = f"/tmp/mut/{pid}"
+    src = os.path.join(os.environ.get("SEED_SRC", "/tmp/mut"), pid)
     demo = next(os.path.join(src, f) for f in ("demo.py", "test_demo.py") if os.path.exists(os.path.join(src, f)))
     wt = worktree("c" + name)
     meta = {"property": pid, "name": name, "repo_head": sh("git -C /repo rev-parse --short HEAD").stdout.strip(), "confirmed_at": time.strftime("%F %T")}
@@ -101,6 +120,8 @@ def confirm(pid, name=None):
         shutil.copy(demo, dst)
         if os.path.exists(f"{src}/NOTES.md"):
             shutil.copy(f"{src}/NOTES.md", dst)
+        meta["breaks_property"] = pid
+        meta["needs"] = needs_from_notes(f"{src}/NOTES.md")
         meta["ran"] = ["demo without patch (exit 0)", "demo with patch (exit != 0)", "full pytest suite with patch: every BASELINE stable_pass test passes"]
         json.dump(meta, open(os.path.join(dst, "meta.json"), "w"), indent=1)
     print(json.dumps(meta, indent=1))
